@@ -19,11 +19,20 @@ package eth2wrap
 //@ pure
 //@ ensures result <==> strings.Contains(err.Error(), "syncing") || strings.Contains(err.Error(), "HeadBlockNotFullyVerified")
 
+// Every link of the wrap chain is classified with errors.As / errors.Is ON THAT LINK (they also search below
+// joined errors, which a plain type assertion or Unwrap walk does not): three As probes (errno, API error,
+// net.Error) and one Is probe (aborted handler) per link; a negative answer means every link was probed.
 //@ func isBadGateway
 //@ props C19
 //@ pure
 //@ ensures err == nil ==> !result
-//@ loop 1 invariant true
+//@ callreq errors.As: a1 == current
+//@ callreq errors.Is: a1 == current && a2 == http.ErrAbortHandler
+//@ callreq errors.Unwrap: a1 == current
+//@ ensures !result && err != nil ==> ncalls(errors.As) == 3*ncalls(errors.Unwrap) && ncalls(errors.Is) == ncalls(errors.Unwrap) && ncalls(errors.Unwrap) >= 1
+//@ loop 1 invariant ncalls(errors.As) == 3*ncalls(errors.Unwrap)
+//@ loop 1 invariant ncalls(errors.Is) == ncalls(errors.Unwrap)
+//@ loop 1 invariant ncalls(errors.Unwrap) >= 0 && (ncalls(errors.Unwrap) == 0 ==> current == err)
 
 // provide: the fork-join over a group uses one worker per member of THAT group and no fail-fast
 // (assumed contract of forkjoin.New, A-FORKJOIN: results are then yielded as soon as each member answers);
